@@ -1047,6 +1047,9 @@ def run_case(case, ctx):
     # the identity of the cores
     if not edge and d <= 300 and d % 2 == 0:
         shared_objects(ctx, teneva, rng, d)
+    # outer products: an interior bond of rank 1 next to a compressible part
+    if not edge and d <= 50:
+        outer_truncate(ctx, teneva, rng)
     # operands of different dtypes (a float32 or integer-typed copy against
     # float64 cores): the values decide
     if not edge and 3 <= d <= 1000:
@@ -1112,6 +1115,46 @@ def shared_objects(ctx, teneva, rng, d):
         for a_, b_ in zip(Ysh[:2], snap)), 'a routine modified the shared '
         'core objects of its argument')
     ctx.event('shared-core-objects')
+
+
+def outer_truncate(ctx, teneva, rng):
+    """Y = A x B with A = T1 + eta T2 (orthogonal rank-1 parts, relative
+    weight eta = 1.4 e: above every per-unfolding threshold, so it must be
+    kept, and dropping it breaks the bound) and B of rank 1 with a long last
+    mode and a norm far from 1 (possibly outside the double range)."""
+    da, db = int(rng.integers(2, 5)), int(rng.integers(1, 40))
+    e = float([1e-1, 1e-3, 1e-6][int(rng.integers(3))])
+    eta = 1.4 * e
+    na = [int(rng.integers(2, 4)) for _ in range(da)]
+    A = []
+    for k in range(da):
+        u1, u2 = rng.normal(size=na[k]), rng.normal(size=na[k])
+        if k == 0:                       # disjoint supports: T1 orthogonal T2
+            u1[1:] = 0.
+            u2[0] = 0.
+        u1, u2 = u1 / np.linalg.norm(u1), u2 / np.linalg.norm(u2)
+        G = np.zeros((1 if k == 0 else 2, na[k], 2))
+        G[0, :, 0] = u1
+        G[-1, :, 1] = u2 * (eta if k == 0 else 1.)
+        A.append(G)
+    A[-1] = A[-1].sum(axis=2, keepdims=True)      # close the bond: rank 1
+    nb = [int(rng.integers(1, 4)) for _ in range(db)]
+    nb[-1] = int(rng.choice([256, 512, 1024]))
+    sh = int(rng.integers(-40, 41))
+    B = [np.ldexp(rng.uniform(0.5, 1., size=(1, k, 1)) * rng.choice([-1., 1.],
+        size=(1, k, 1)), sh) for k in nb]
+    T = A + B
+    NT = normcores(T)
+    sTT = sweep(NT, NT)
+    for is_eigh in (True, False):
+        what = (f'truncate(e={e:g}, use_stab=True, is_eigh={is_eigh}) of an '
+            f'outer product, rank-1 bond after mode {da}, eta = 1.4 e')
+        ok, Z = call(ctx, 'truncate-finite', None, teneva.truncate, T, e,
+            use_stab=True, is_eigh=is_eigh)
+        if ok:
+            judge_truncate(ctx, T, NT, sTT, Z, e, is_eigh,
+                ('truncate-finite', 'truncate-error'), what, None)
+    ctx.event('outer-product-truncate')
 
 
 def mixed_dtypes(ctx, teneva, rng, d):
